@@ -70,7 +70,8 @@ impl EpochEnv {
 struct JobData {
     task_idx: u16,
     task: PlanTask,
-    opts: Options,
+    /// None: the worker deserialises the configuration itself, for this file only
+    opts: Option<Options>,
     env: Option<Arc<EpochEnv>>, // None = per-task Globals
     shared_store: bool,
     epoch: u32,
@@ -89,6 +90,15 @@ struct Slot {
     mailbox: Option<Job>,
     last_task_crashed: bool,
     in_transform: bool,
+    /// kernel thread id of the worker's OS thread (to read its scheduler state from /proc)
+    tid: i32,
+    /// the worker held the baton and was found asleep in the kernel without having yielded: it waits
+    /// for something (a lock of the code under test) that a parked task holds. It is not resumable
+    /// until it arrives at its next yield point by itself.
+    blocked: bool,
+    /// a blocked worker reached its next yield point (or the end of its task) and waits there;
+    /// acknowledged (turned into `parked`) only by `settle`
+    arrived: bool,
 }
 
 #[derive(Default, Clone, Debug, Serialize, Deserialize)]
@@ -107,6 +117,9 @@ pub struct Counters {
     pub crash_then_same_worker_reused: u32,
     pub budget_fired: u32,
     pub pure_comment_tasks_in_shared_store: u32,
+    /// the baton holder blocked on a lock held by a parked task and the baton was handed on
+    #[serde(default)]
+    pub blocked_handoffs: u32,
 }
 
 struct St {
@@ -134,13 +147,29 @@ struct St {
     c: Counters,
     results: Vec<TaskResult>,
     task_keys: Vec<u64>,
+    /// bumped whenever the baton holder does anything the scheduler sees (watchdog)
+    progress: u64,
 }
 
 pub struct Sim {
     st: Mutex<St>,
     /// one condvar per worker slot, plus the coordinator's at index `workers`
     cvs: Vec<Condvar>,
+    /// signalled when a blocked worker arrives at a yield point
+    settle_cv: Condvar,
+    done: std::sync::atomic::AtomicBool,
+    watchdog_ready: std::sync::atomic::AtomicBool,
 }
+
+/// Scheduler state of a thread of this process as the kernel sees it ('R' running/runnable,
+/// 'S' sleeping, 'D' disk sleep, ...); '?' if it cannot be read.
+fn thread_state(tid: i32) -> char {
+    let Ok(s) = std::fs::read_to_string(format!("/proc/self/task/{tid}/stat")) else { return '?' };
+    s.rsplit_once(") ").and_then(|x| x.1.chars().next()).unwrap_or('?')
+}
+
+/// Exit status of a forked run in which every live task is blocked and nothing else can run.
+pub const EXIT_DEADLOCK: i32 = 86;
 
 impl Sim {
     fn wake(&self, h: Holder) {
@@ -290,19 +319,58 @@ impl St {
 }
 
 impl Sim {
-    /// Called (through `seams::yield_point`) by the worker that holds the baton.
-    pub fn yield_from_worker(&self, w: u8, t: u16, step: u32, site: &'static str) {
-        let mut st = self.st.lock().unwrap();
-        debug_assert_eq!(st.holder, Holder::Worker(w));
-        st.slots[w as usize].in_transform = !site.starts_with("phase.") || site == "phase.resolved";
-        st.event(w, t, step, site);
-        let a = st.decide(Some(w)).expect("the yielding task is always resumable");
-        if a == Action::Resume(w) {
-            return; // fast path: keep the baton
+    /// A worker that was found blocked (see the watchdog) lost the baton while it slept in the
+    /// kernel. When whatever it waited for is released it runs on by itself, up to here: its
+    /// next yield point or the end of its task, where it reports its arrival and waits until it
+    /// is resumed like any other parked task. Returns with the baton held.
+    fn ensure_baton<'a>(&'a self, w: u8, mut st: std::sync::MutexGuard<'a, St>) -> std::sync::MutexGuard<'a, St> {
+        if st.holder != Holder::Worker(w) {
+            st.slots[w as usize].arrived = true;
+            self.settle_cv.notify_all();
+            while st.holder != Holder::Worker(w) {
+                st = self.cvs[w as usize].wait(st).unwrap();
+            }
+            st.slots[w as usize].parked = false;
         }
-        st.slots[w as usize].parked = true;
+        // (a holder that slept and woke by itself while nobody else could run also gets here)
+        st.slots[w as usize].blocked = false;
+        st.slots[w as usize].arrived = false;
+        st
+    }
+
+    /// At the two kinds of point where a blocked worker matters - the end of a task, and the
+    /// baton holder blocking - every blocked worker must be either still blocked (asleep in the
+    /// kernel on three consecutive looks, the scheduler lock released in between) or arrived at
+    /// its next yield point (then it becomes an ordinary parked task). A woken one that is still
+    /// running towards its yield is waited for. Arrivals are acknowledged nowhere else, so the
+    /// set of enabled actions is a function of what the code did, not of timing.
+    fn settle<'a>(&'a self, mut st: std::sync::MutexGuard<'a, St>) -> std::sync::MutexGuard<'a, St> {
+        let mut asleep = 0;
+        loop {
+            for s in st.slots.iter_mut() {
+                if s.blocked && s.arrived {
+                    s.blocked = false;
+                    s.parked = true;
+                }
+            }
+            let blocked: Vec<i32> = st.slots.iter().filter(|s| s.blocked).map(|s| s.tid).collect();
+            if blocked.is_empty() {
+                return st;
+            }
+            if blocked.iter().all(|t| thread_state(*t) == 'S') {
+                asleep += 1;
+                if asleep >= 3 {
+                    return st;
+                }
+            } else {
+                asleep = 0;
+            }
+            st = self.settle_cv.wait_timeout(st, std::time::Duration::from_millis(1)).unwrap().0;
+        }
+    }
+
+    fn hand_over(&self, st: &mut St, a: Action) {
         if let Action::Resume(other) = a {
-            // direct hand-off to the other parked worker
             st.holder = Holder::Worker(other);
             self.wake(Holder::Worker(other));
         } else {
@@ -310,6 +378,80 @@ impl Sim {
             st.holder = Holder::Coord;
             self.wake(Holder::Coord);
         }
+    }
+
+    /// Runs on its own thread for the duration of one execution. The only thing it does: when the
+    /// baton holder has made no progress and has been asleep in the kernel on five consecutive
+    /// looks 2 ms apart, the holder is blocked on something a parked task holds (a lock of the
+    /// code under test taken around a yield point). Real threads would simply wait; so does the
+    /// simulator: the holder keeps waiting, and the baton goes to whoever `decide` picks among
+    /// the others.
+    fn watchdog(&self) {
+        // first allocation of this thread (it attaches the thread to a malloc arena) happens here,
+        // before any worker exists: see the start-up comment in `execute`
+        drop(std::hint::black_box(Box::new(0u64)));
+        self.watchdog_ready.store(true, std::sync::atomic::Ordering::SeqCst);
+        let mut last_progress = u64::MAX;
+        let mut asleep = 0u32;
+        let mut stuck_since: Option<std::time::Instant> = None;
+        while !self.done.load(std::sync::atomic::Ordering::Relaxed) {
+            std::thread::sleep(std::time::Duration::from_millis(2));
+            let mut st = self.st.lock().unwrap();
+            let Holder::Worker(w) = st.holder else {
+                asleep = 0;
+                continue;
+            };
+            let progress = st.progress;
+            let tid = st.slots[w as usize].tid;
+            if progress != last_progress || tid == 0 || thread_state(tid) != 'S' {
+                last_progress = progress;
+                asleep = 0;
+                stuck_since = None;
+                continue;
+            }
+            asleep += 1;
+            if asleep < 5 {
+                continue;
+            }
+            // blocked. Is there anybody else who can run?
+            st.slots[w as usize].blocked = true;
+            st = self.settle(st);
+            if st.holder != Holder::Worker(w) || st.progress != progress {
+                continue;
+            }
+            let (normal, _) = st.enabled(None);
+            if normal.is_empty() {
+                // nobody: either it sleeps and wakes by itself, or this is a deadlock of the code under test
+                let s0 = *stuck_since.get_or_insert_with(std::time::Instant::now);
+                if s0.elapsed() > std::time::Duration::from_secs(3) {
+                    unsafe { libc::_exit(EXIT_DEADLOCK) };
+                }
+                continue;
+            }
+            st.c.blocked_handoffs += 1;
+            st.progress += 1;
+            st.log.str("blocked");
+            st.inter.str("blocked");
+            let a = st.decide(None).expect("somebody else can run");
+            self.hand_over(&mut st, a);
+            asleep = 0;
+            stuck_since = None;
+        }
+    }
+
+    /// Called (through `seams::yield_point`) by the worker that holds the baton.
+    pub fn yield_from_worker(&self, w: u8, t: u16, step: u32, site: &'static str) {
+        let st = self.st.lock().unwrap();
+        let mut st = self.ensure_baton(w, st);
+        st.progress += 1;
+        st.slots[w as usize].in_transform = !site.starts_with("phase.") || site == "phase.resolved";
+        st.event(w, t, step, site);
+        let a = st.decide(Some(w)).expect("the yielding task is always resumable");
+        if a == Action::Resume(w) {
+            return; // fast path: keep the baton
+        }
+        st.slots[w as usize].parked = true;
+        self.hand_over(&mut st, a);
         while st.holder != Holder::Worker(w) {
             st = self.cvs[w as usize].wait(st).unwrap();
         }
@@ -319,6 +461,7 @@ impl Sim {
 
 fn worker_main(sim: Arc<Sim>, w: u8, key_seed: u64) {
     seams::set_thread_keyseed(key_seed);
+    sim.st.lock().unwrap().slots[w as usize].tid = unsafe { libc::syscall(libc::SYS_gettid) } as i32;
     loop {
         let job = {
             let mut st = sim.st.lock().unwrap();
@@ -341,11 +484,19 @@ fn worker_main(sim: Arc<Sim>, w: u8, key_seed: u64) {
                     (st.slots[w as usize].generation, st.slots[w as usize].last_task_crashed)
                 };
                 let r = run_task(&j, w, Some(sim.clone()), false);
-                let mut st = sim.st.lock().unwrap();
+                // Everything the task owned is freed here, while this worker still has the baton: a
+                // free that overlaps the coordinator's next allocations would make heap placement a
+                // matter of timing (and with it the behaviour of code that looks at addresses).
+                let (j_task_idx, j_epoch, j_shared_store, j_crash_planned) = (j.task_idx, j.epoch, j.shared_store, j.task.crash_at.is_some());
+                drop(j);
+                let st = sim.st.lock().unwrap();
+                // (a task that was blocked and then ended by a panic gets here without the baton)
+                let mut st = sim.ensure_baton(w, st);
+                st.progress += 1;
                 let crashed = !matches!(r.outcome, Outcome::Returned(_));
                 st.slots[w as usize].last_task_crashed = crashed;
                 if r.fault_fired {
-                    if j.task.crash_at.is_some() && r.crash_kind_hook {
+                    if j_crash_planned && r.crash_kind_hook {
                         st.c.crash_fired += 1;
                     } else {
                         st.c.emitter_crash_fired += 1;
@@ -358,14 +509,14 @@ fn worker_main(sim: Arc<Sim>, w: u8, key_seed: u64) {
                     st.c.crash_then_same_worker_reused += 1;
                 }
                 st.c.noise_marks += r.noise_marks;
-                if j.shared_store && r.hit_pure {
+                if j_shared_store && r.hit_pure {
                     st.c.pure_comment_tasks_in_shared_store += 1;
                 }
                 st.results.push(TaskResult {
-                    task: j.task_idx,
+                    task: j_task_idx,
                     worker: w,
                     generation,
-                    epoch: j.epoch,
+                    epoch: j_epoch,
                     outcome: r.outcome,
                     steps: r.steps,
                     fault_fired: r.fault_fired,
@@ -431,12 +582,16 @@ fn run_task(j: &JobData, w: u8, sim: Option<Arc<Sim>>, record_sites: bool) -> Ta
         } else {
             Some(AnyComments::Single(Default::default()))
         };
+        let opts = match &j.opts {
+            Some(o) => o.clone(),
+            None => parse_options(&j.task.options).expect("workload options must deserialize"),
+        };
         GLOBALS.set(globals, || {
             pipeline::run_file(
                 Env { cm: &cm, comments, file_name: format!("task{}.{}", j.task_idx, if j.task.ts { "tsx" } else { "jsx" }) },
                 &j.task.src,
                 j.task.ts,
-                j.opts.clone(),
+                opts,
                 &j.task.noise,
             )
         })
@@ -493,10 +648,12 @@ pub fn solo_here(task: &PlanTask, key_seed: u64) -> SoloResult {
     t.crash_at = None;
     t.emitter_crash_at = None;
     t.noise = Default::default();
-    let opts = parse_options(&t.options).expect("workload options must deserialize");
+    let opts = Some(parse_options(&t.options).expect("workload options must deserialize"));
     let j = JobData { task_idx: 0, task: t, opts, env: None, shared_store: false, epoch: 0, budget: SOLO_STEP_CAP };
+    // (VERIF_SOLO_STACK_KIB: diagnostic knob to find workload modules too deep for small host stacks)
+    let stack = std::env::var("VERIF_SOLO_STACK_KIB").ok().and_then(|s| s.parse::<usize>().ok()).map(|k| k << 10).unwrap_or(WORKER_STACK);
     std::thread::Builder::new()
-        .stack_size(WORKER_STACK)
+        .stack_size(stack)
         .spawn(move || {
             seams::set_thread_keyseed(key_seed);
             let r = run_task(&j, 0, None, true);
@@ -545,7 +702,7 @@ pub fn execute(plan: &Plan, script: Option<&[Action]>, budgets: &[u32]) -> RunRe
         st: Mutex::new(St {
             holder: Holder::Coord,
             pending: None,
-            slots: (0..nw).map(|_| Slot { busy: None, parked: false, generation: 0, mailbox: None, last_task_crashed: false, in_transform: false }).collect(),
+            slots: (0..nw).map(|_| Slot { busy: None, parked: false, generation: 0, mailbox: None, last_task_crashed: false, in_transform: false, tid: 0, blocked: false, arrived: false }).collect(),
             next_task: 0,
             n_tasks: plan.tasks.len(),
             strategy,
@@ -565,18 +722,42 @@ pub fn execute(plan: &Plan, script: Option<&[Action]>, budgets: &[u32]) -> RunRe
             c: Counters::default(),
             results: vec![],
             task_keys: plan.tasks.iter().map(|t| fnv_str(&t.key())).collect(),
+            progress: 0,
         }),
         cvs: (0..nw + 1).map(|_| Condvar::new()).collect(),
+        settle_cv: Condvar::new(),
+        done: std::sync::atomic::AtomicBool::new(false),
+        watchdog_ready: std::sync::atomic::AtomicBool::new(false),
     });
+    let watchdog = {
+        let sim = sim.clone();
+        std::thread::Builder::new().name("watchdog".into()).spawn(move || sim.watchdog()).expect("spawn watchdog")
+    };
+    while !sim.watchdog_ready.load(std::sync::atomic::Ordering::SeqCst) {
+        std::thread::yield_now();
+    }
     let spawn = |w: usize, generation: u32| {
         let sim = sim.clone();
         let key = mix(plan.key_seed ^ ((w as u64) << 32) ^ generation as u64);
+        let stack = plan.stack_kib.get(w).map(|k| (*k as usize) << 10).unwrap_or(WORKER_STACK);
         std::thread::Builder::new()
-            .stack_size(WORKER_STACK)
+            .stack_size(stack)
             .spawn(move || worker_main(sim, w as u8, key))
             .expect("spawn worker")
     };
-    let mut handles: Vec<Option<std::thread::JoinHandle<()>>> = (0..nw).map(|w| Some(spawn(w, 0))).collect();
+    // Threads are started one at a time, each waited for until it has parked itself: thread start-up
+    // allocates (stack, malloc arena), and two threads starting at once would make heap placement -
+    // and with it anything in the code under test that looks at addresses - a matter of timing.
+    let wait_ready = |w: usize| {
+        while sim.st.lock().unwrap().slots[w].tid == 0 {
+            std::thread::yield_now();
+        }
+    };
+    let mut handles: Vec<Option<std::thread::JoinHandle<()>>> = vec![];
+    for w in 0..nw {
+        handles.push(Some(spawn(w, 0)));
+        wait_ready(w);
+    }
     let mut epoch = 0u32;
     let mut env = EpochEnv::new();
 
@@ -588,7 +769,23 @@ pub fn execute(plan: &Plan, script: Option<&[Action]>, budgets: &[u32]) -> RunRe
             }
             match st.pending.take() {
                 Some(a) => Some(a),
-                None => st.decide(None),
+                None => {
+                    st = sim.settle(st);
+                    st.progress += 1;
+                    let mut a = st.decide(None);
+                    // nothing can run but a task is still blocked: whoever held what it waits for has
+                    // ended, so it wakes by itself and arrives at its next yield point; if it does not,
+                    // the code under test deadlocked on its own
+                    let t0 = std::time::Instant::now();
+                    while a.is_none() && st.slots.iter().any(|s| s.blocked) {
+                        if t0.elapsed() > std::time::Duration::from_secs(3) {
+                            unsafe { libc::_exit(EXIT_DEADLOCK) };
+                        }
+                        st = sim.settle_cv.wait_timeout(st, std::time::Duration::from_millis(5)).unwrap().0;
+                        a = st.decide(None);
+                    }
+                    a
+                }
             }
         };
         let Some(act) = act else { break };
@@ -603,7 +800,7 @@ pub fn execute(plan: &Plan, script: Option<&[Action]>, budgets: &[u32]) -> RunRe
                 let ti = st.next_task;
                 st.next_task += 1;
                 let t = plan.tasks[ti].clone();
-                let opts = opts_cache[t.options.as_str()].clone();
+                let opts = if plan.opts_per_task { None } else { Some(opts_cache[t.options.as_str()].clone()) };
                 let job = JobData {
                     task_idx: ti as u16,
                     task: t,
@@ -635,8 +832,13 @@ pub fn execute(plan: &Plan, script: Option<&[Action]>, budgets: &[u32]) -> RunRe
                     st.inter.str("replace");
                 }
                 handles[w as usize].take().unwrap().join().expect("worker thread");
-                let generation = sim.st.lock().unwrap().slots[w as usize].generation;
+                let generation = {
+                    let mut st = sim.st.lock().unwrap();
+                    st.slots[w as usize].tid = 0;
+                    st.slots[w as usize].generation
+                };
                 handles[w as usize] = Some(spawn(w as usize, generation));
+                wait_ready(w as usize);
             }
             Action::Restart => {
                 let mut st = sim.st.lock().unwrap();
@@ -662,6 +864,8 @@ pub fn execute(plan: &Plan, script: Option<&[Action]>, budgets: &[u32]) -> RunRe
         }
         handles[w].take().unwrap().join().expect("worker thread");
     }
+    sim.done.store(true, std::sync::atomic::Ordering::Relaxed);
+    let _ = watchdog.join();
     let mut st = sim.st.lock().unwrap();
     let mut results = std::mem::take(&mut st.results);
     // fold results into the log fingerprint
